@@ -78,10 +78,11 @@ const (
 
 // Source serves Data[:Limit] under a delivery policy and then behaves as Term says.
 type Source struct {
-	Data  []byte
-	Off   int
-	Chunk int // default bytes per Read call; 0 = as many as fit
-	Limit int // bytes released; -1 = all of Data
+	Data   []byte
+	Off    int
+	Chunk  int   // default bytes per Read call; 0 = as many as fit
+	Pieces []int // explicit sizes of the first deliveries (then Chunk applies)
+	Limit  int   // bytes released; -1 = all of Data
 
 	Term     int
 	Err      error // for TermErr
@@ -133,7 +134,11 @@ func (s *Source) Read(p []byte) (int, error) {
 	if n > len(p) {
 		n = len(p)
 	}
-	if s.Chunk > 0 && n > s.Chunk {
+	if s.Calls-s.ZeroReads <= len(s.Pieces) {
+		if pc := s.Pieces[s.Calls-s.ZeroReads-1]; pc > 0 && n > pc {
+			n = pc
+		}
+	} else if s.Chunk > 0 && n > s.Chunk {
 		n = s.Chunk
 	}
 	if s.D != nil && s.Calls <= s.MaxDevCalls && len(s.Short) > 0 && n > 1 {
